@@ -347,3 +347,92 @@ func TestGvcReplay(t *testing.T) {
 	out, ok := e.runOverlayTest(c, test)
 	return out, ok, test
 }
+
+// replayPlan confirms a failed store assertion of the content plan (C05) on
+// the real code: every ordered pair of entries over a small universe of
+// overlapping destinations and entry types is planned, and the plan is checked
+// against the property itself (no path present both as file and as directory,
+// nothing beneath a non-directory, no entry silently replaced).
+func (e *Engine) replayPlan(o *Obligation) (string, bool, string) {
+	c := o.contract
+	if c == nil || !strings.HasSuffix(c.Key, "files.PrepareForPackager") {
+		return "", false, ""
+	}
+	test := fmt.Sprintf(`//go:build verif
+
+package files
+
+import (
+	"os"
+	"path/filepath"
+	"strings"
+	"testing"
+	"time"
+)
+
+func TestGvcReplay(t *testing.T) {
+	dir := t.TempDir()
+	src := filepath.Join(dir, "a")
+	os.WriteFile(src, []byte("x"), 0o644)
+	tree := filepath.Join(dir, "t")
+	os.MkdirAll(filepath.Join(tree, "bar"), 0o755)
+	os.WriteFile(filepath.Join(tree, "bar", "baz"), []byte("y"), 0o644)
+	os.WriteFile(filepath.Join(tree, "a"), []byte("z"), 0o644)
+	universe := []*Content{
+		{Source: src, Destination: "/foo"},
+		{Source: src, Destination: "/foo/bar"},
+		{Source: src, Destination: "/foo/a"},
+		{Destination: "/foo", Type: TypeDir},
+		{Destination: "/foo/bar", Type: TypeDir},
+		{Source: "target", Destination: "/foo", Type: TypeSymlink},
+		{Source: "target", Destination: "/foo/bar", Type: TypeSymlink},
+		{Source: tree, Destination: "/foo", Type: TypeTree},
+		{Source: tree, Destination: "/", Type: TypeTree},
+	}
+	for i, a := range universe {
+		for j, b := range universe {
+			if i == j {
+				continue
+			}
+			in := Contents{a, b}
+			res, err := PrepareForPackager(in, 0, "", false, time.Time{})
+			if err != nil {
+				continue
+			}
+			byPath := map[string][]*Content{}
+			for _, c := range res {
+				k := strings.TrimRight(c.Destination, "/")
+				byPath[k] = append(byPath[k], c)
+			}
+			for k, cs := range byPath {
+				if len(cs) > 1 {
+					t.Fatalf("GVC-REPLAY-VIOLATED %%s: entries %%v + %%v: path %%q is in the plan %%d times (%%v)", %q, a, b, k, len(cs), cs)
+				}
+			}
+			for _, c := range res {
+				if c.Type == TypeDir || c.Type == TypeImplicitDir {
+					continue
+				}
+				for _, d := range res {
+					if d != c && strings.HasPrefix(d.Destination, strings.TrimRight(c.Destination, "/")+"/") {
+						t.Fatalf("GVC-REPLAY-VIOLATED %%s: entries %%v + %%v: %%v lies beneath the non-directory %%v", %q, a, b, d, c)
+					}
+				}
+			}
+			for _, decl := range in {
+				if decl.Type == TypeTree || decl.Type == TypeDir {
+					continue
+				}
+				for _, c := range res {
+					if c.Destination == decl.Destination && c.Type != TypeImplicitDir && decl.Source != "" && c.Source != decl.Source && c.Source != ToNixPath(decl.Source) {
+						t.Fatalf("GVC-REPLAY-VIOLATED %%s: entries %%v + %%v: declared entry %%v was silently replaced by %%v", %q, a, b, decl, c)
+					}
+				}
+			}
+		}
+	}
+}
+`, o.ID, o.ID, o.ID)
+	out, ok := e.runOverlayTest(c, test)
+	return out, ok, test
+}
